@@ -565,6 +565,58 @@ Definition case_spec_minecraft : R bytes :=
     | None => ret (str "SKIP")
     end.
 
+(* family 12: a query (or a raw exchange through the crate's sockets) against a
+   loopback server with a scripted behaviour. The model runs the same query on
+   the equivalent script. Output: result | what the server saw.
+   family 112: the number of receives that wait for the full read timeout. *)
+Definition digest (d : bytes) : bytes :=
+  str "len=" ++ show_N (lenN d) ++ str ",sum=" ++ show_N (fold_left N.add d 0 mod 4294967296).
+Definition sends_of (n : net) : list bytes :=
+  flat_map (fun e => match e with SendEv _ d => [d] | _ => [] end) (rev (n_trace n)).
+Definition recvs_of (n : net) : N :=
+  lenN (filter (fun e => match e with RecvEv _ => true | _ => false end) (n_trace n)).
+Definition real_run : R (N * bool * net * (bytes * net)) :=
+  let* kind := rd_u8 in
+  let* v6 := rd_u8 in
+  let* ts := rd_tsettings in
+  let* nrep := rd_u8 in
+  let* replies := rd_list (N.to_nat nrep) rd_bytes32 in
+  let* after := rd_u8 in
+  let* payload := rd_bytes32 in
+  let* size := rd_opt rd_u32 in
+  let tcp := (kind =? 2) || (kind =? 4) in
+  let n0 := if after =? 2 then net_init [] [Refused] []
+            else if tcp then net_init [] [Stream (hd [] replies) (negb (after =? 1))] []
+            else if after =? 3 then net_init [Datagram payload] [] []
+            else net_init (map Datagram replies) [] [] in
+  match ts with
+  | Ok t =>
+      let res : bytes * net :=
+        if kind =? 0 then (let r := Valve.query (bz_lookup []) 0 (Source None) (Some (mk_gather Enforce Skip false)) t n0 in
+                           (show_outcome show_response (fst r), snd r))
+        else if kind =? 1 then (let r := client_query 0 Q3 t n0 in (show_outcome show_qresponse (fst r), snd r))
+        else if kind =? 2 then (let r := query_java (fun _ => None) 0 t None n0 in
+                                ((match fst r with Panic 99 => str "ORACLE-MISS" | o => show_outcome show_java o end), snd r))
+        else if kind =? 3 then (let r := (do* _ := udp_new 0 t in do* _ := send 0 payload in udp_recv size) n0 in
+                                (show_outcome digest (fst r), snd r))
+        else (let r := (do* _ := tcp_new 0 t in do* _ := send 0 payload in tcp_recv None) n0 in
+              (show_outcome digest (fst r), snd r)) in
+      ret (kind, tcp, n0, res)
+  | _ => fail InvalidInput
+  end.
+Definition case_real : R bytes :=
+  let* '(kind, tcp, n0, (res, n)) := real_run in
+  let saw := if kind =? 2 then (match sends_of n with [] => [] | l => str "len=" ++ show_N (lenN (concat l)) end)
+             else if tcp then (match sends_of n with [] => [] | l => digest (concat l) end)
+             else if kind =? 3 then intercalate (str ",") (map digest (sends_of n))
+             else intercalate (str ",") (map show_hex (sends_of n)) in
+  ret (res ++ str "|" ++ saw).
+Definition case_spec_real : R bytes :=
+  let* '(kind, tcp, n0, (res, n)) := real_run in
+  let consumed := lenN (n_udp n0) - lenN (n_udp n) in
+  let answered := if tcp then (match n_cur n with Some (_, false) => 1 | _ => 0 end) else consumed in
+  ret (str "timeouts=" ++ show_N (recvs_of n - answered)).
+
 Definition run_case_R : R bytes :=
   let* fam := rd_u8 in
   if fam =? 1 then case_bufops
@@ -575,6 +627,7 @@ Definition run_case_R : R bytes :=
   else if fam =? 6 then case_varint_rt
   else if fam =? 7 then case_string_rt
   else if fam =? 10 then case_valve
+  else if fam =? 12 then case_real
   else if fam =? 14 then case_paths
   else if fam =? 15 then case_view
   else if fam =? 16 then case_master
@@ -593,6 +646,7 @@ Definition run_case_R : R bytes :=
   else if fam =? 141 then case_spec_gamespy 1
   else if fam =? 142 then case_spec_gamespy 2
   else if fam =? 143 then case_spec_gamespy 3
+  else if fam =? 112 then case_spec_real
   else if fam =? 114 then case_spec_valve_for
   else if fam =? 115 then case_spec_view
   else if fam =? 116 then case_spec_master
